@@ -32,6 +32,7 @@ use wincode::config::DefaultConfig;
 
 use super::{BlockInfo, BlockstoreEvent};
 use crate::crypto::merkle::{BlockHash, DoubleMerkleTree};
+use crate::crypto::signature::Signature;
 use crate::shredder::{
     DeshredError, MAX_DATA_PER_SLICE, RegularShredder, Shredder, SliceCommitment, TOTAL_SHREDS,
     ValidatedShred,
@@ -197,7 +198,10 @@ pub(super) struct BlockData {
     ///
     /// Lets [`ValidatedShred::try_new`] short-circuit verification for the same slice.
     /// This is also what allows us to detect leader equivocation.
-    pub(super) commitment_cache: BTreeMap<SliceIndex, SliceCommitment>,
+    ///
+    /// Kept together with the signature of the shred that populated the entry, which has been
+    /// verified (nothing is cached yet that could have let the first shred skip the check).
+    pub(super) commitment_cache: BTreeMap<SliceIndex, (SliceCommitment, Signature)>,
 }
 
 impl BlockData {
@@ -217,7 +221,7 @@ impl BlockData {
     /// Adds a shred to this block.
     fn add_shred(
         &mut self,
-        shred: ValidatedShred,
+        mut shred: ValidatedShred,
         shredder: &mut RegularShredder,
     ) -> Result<Option<BlockstoreEvent>, AddShredError> {
         let header = &shred.payload().header;
@@ -228,12 +232,17 @@ impl BlockData {
         // first shred for a slice populates the commitment cache;
         // a later shred with a different valid commitment proves leader equivocation
         match self.commitment_cache.entry(slice_index) {
-            Entry::Occupied(entry) if entry.get() != &shred.commitment() => {
+            Entry::Occupied(entry) if entry.get().0 != shred.commitment() => {
                 return Err(AddShredError::Equivocation);
             }
-            Entry::Occupied(_) => {}
+            Entry::Occupied(entry) => {
+                // the signature this shred carries may never have been checked (identical cached
+                // commitment); what is stored, copied onto rebuilt shreds and served to repairing
+                // nodes is the verified signature of the slice
+                shred.set_slice_sig(entry.get().1);
+            }
             Entry::Vacant(entry) => {
-                entry.insert(shred.commitment());
+                entry.insert((shred.commitment(), shred.slice_sig()));
             }
         }
 
@@ -327,7 +336,8 @@ impl BlockData {
             !self.commitment_cache.contains_key(&slice_index),
             "own slice {slice_index} added twice in slot {slot}"
         );
-        self.commitment_cache.insert(slice_index, commitment);
+        self.commitment_cache
+            .insert(slice_index, (commitment, any_shred.slice_sig()));
 
         // leader produces each slice once, in order, and stops after the last,
         // so the `last_slice` index must never already be set
